@@ -179,3 +179,30 @@ func vfRunSpawned(i int)          {}
 func vfRacy(p any)                {}
 func vfHeld(p any) bool           { return false }
 func vfHeldByMe(p any) bool       { return false }
+
+// regexp call log (engine only)
+func vfMatchCount() int           { return 0 }
+func vfMatchExpr(i int) string    { return "" }
+func vfMatchSubject(i int) string { return "" }
+func vfMatchResult(i int) bool    { return false }
+func vfMatchErr(i int) bool       { return false }
+
+// vfHoldTimers keeps time.AfterFunc callbacks from firing until vfReleaseTimers (engine only).
+func vfHoldTimers()    {}
+func vfReleaseTimers() {}
+
+// vfStubCalls: number of recorded calls of a memberlist lifecycle stub ("Join", "Leave", "Shutdown") (engine only)
+func vfStubCalls(name string) int { return 0 }
+
+// vfQuietLock: operations on this mutex are not pre-emption points (engine only).
+func vfQuietLock(p any) {}
+
+// vfDecodeOpaque: identity decoding of an opaque encoded buffer (engine only).
+func vfDecodeOpaque(b []byte, out any) bool { return false }
+
+// abstract file store (engine only)
+func vfFileFaults()                      {}
+func vfFileExists(name string) bool      { return false }
+func vfFileWrites(name string) int       { return 0 }
+func vfFileSet(name string, v any)       {}
+func vfFileJSON(name string, out any) bool { return false }
